@@ -46,7 +46,7 @@ theorem entryStep_no_panic (point : String) (last : Bool) (branch : List String)
           cases oid with
           | none => simp
           | some id => cases id <;> first | (simp; done) | exact entryGo_no_panic rec w hrec pts o _
-    | null => simp [ferr]
+    | null => simp only; split <;> simp [ferr]
     | bool b => simp [ferr]
     | num n => simp [ferr]
     | str s => simp [ferr]
